@@ -3,6 +3,7 @@ package rules
 import (
 	"fmt"
 	"go/token"
+	"go/types"
 	"regexp/syntax"
 	"strings"
 
@@ -469,7 +470,18 @@ func c07RulesWith(c *eng.Ctx, helper *globHelper) {
 	}
 	// Rules.Allow
 	want := "Rules.Allow(action, secret) == exists r in rules: r.Allow(action, secret)"
-	if sum, ok := existsLoop(c, "R-C07-4", rulesAllow, want); ok && sum != nil {
+	if call, lit := existsHelperCall(rulesAllow); call != nil {
+		// written with a generic "any element satisfies" helper and a literal
+		okk := eng.Origin(call.Call.Args[0]) == ssa.Value(rulesAllow.Params[0]) && len(lit.Params) == 1
+		for _, r := range eng.Returns(lit) {
+			pc, _ := eng.TupleCall(eng.RetVals(r)[0])
+			if pc == nil || eng.Callee(&pc.Call) != ruleAllow || len(pc.Call.Args) != 3 || !isParamOrItsCell(pc.Call.Args[0], lit.Params[0]) ||
+				eng.Origin(pc.Call.Args[1]) != ssa.Value(rulesAllow.Params[1]) || eng.Origin(pc.Call.Args[2]) != ssa.Value(rulesAllow.Params[2]) {
+				okk = false
+			}
+		}
+		c.Check(okk, "R-C07-4", rulesAllow, rulesAllow.Pos(), "Rules.Allow", want+" (same action and secret, every rule examined)", "through "+eng.CallStr(&call.Call))
+	} else if sum, ok := existsLoop(c, "R-C07-4", rulesAllow, want); ok && sum != nil {
 		call, _, truth, isCall := sum.pred.BoolCall()
 		okk := isCall && truth && eng.Callee(&call.Call) == ruleAllow && len(call.Call.Args) == 3 &&
 			sum.loop.ElemOf(call.Call.Args[0]) && eng.Same(sum.loop.Slice, rulesAllow.Params[0]) &&
@@ -555,6 +567,40 @@ func c07RuleAllow(c *eng.Ctx, ruleAllow, match *ssa.Function, helper *globHelper
 		cal := eng.Callee(&call.Call)
 		if cal == nil || cal.Blocks == nil || !eng.IsHelper(ruleAllow, cal) {
 			return ""
+		}
+		// a generic "some element satisfies pred" helper applied to one of the
+		// rule's lists with a literal predicate
+		if isExistsHelper(cal) && len(call.Call.Args) == 2 {
+			mc, isMC := eng.Origin(call.Call.Args[1]).(*ssa.MakeClosure)
+			fld := recvField(call.Call.Args[0])
+			if !isMC || (fld != "Action" && fld != "Secret") {
+				return ""
+			}
+			g := mc.Fn.(*ssa.Function)
+			okk := len(g.Params) == 1
+			for _, r := range eng.Returns(g) {
+				rv := eng.RetVals(r)
+				switch fld {
+				case "Action":
+					b, isB := eng.Origin(rv[0]).(*ssa.BinOp)
+					if !isB || b.Op != token.EQL || !((isParamOrItsCell(b.X, g.Params[0]) && eng.Origin(b.Y) == actionP) || (isParamOrItsCell(b.Y, g.Params[0]) && eng.Origin(b.X) == actionP)) {
+						okk = false
+					}
+				case "Secret":
+					pc, _ := eng.TupleCall(rv[0])
+					if pc == nil || eng.Callee(&pc.Call) != match || len(pc.Call.Args) != 2 || !isParamOrItsCell(pc.Call.Args[0], g.Params[0]) || eng.Origin(pc.Call.Args[1]) != secretP {
+						okk = false
+					}
+				}
+			}
+			what := map[string]string{"Action": "element == action over the whole r.Action", "Secret": "element.Match(secret) over the whole r.Secret"}[fld]
+			c.Check(okk, "R-C07-4", g, g.Pos(), strings.ToLower(fld)+" predicate "+eng.CallStr(&call.Call), what+" (through a helper that reports whether some element satisfies the literal)", "")
+			if okk {
+				res = map[string]string{"Action": "A", "Secret": "S"}[fld]
+			} else {
+				failed = true
+			}
+			return res
 		}
 		// a local predicate: a literal over one list, or a helper method of
 		// the rule taking the action / the secret.  mapv turns a value of its
@@ -964,4 +1010,79 @@ func instrOf(v ssa.Value) ssa.Instruction {
 		return in
 	}
 	return nil
+}
+
+// isExistsHelper: h(xs, pred) reports whether pred holds for some element of
+// xs: one full-range loop over its slice parameter, true returned exactly on
+// the true edge of pred(element), false only after the loop.
+func isExistsHelper(h *ssa.Function) bool {
+	if h == nil || h.Blocks == nil || len(h.Params) != 2 {
+		return false
+	}
+	if _, isSl := h.Params[0].Type().Underlying().(*types.Slice); !isSl {
+		return false
+	}
+	if _, isFn := h.Params[1].Type().Underlying().(*types.Signature); !isFn {
+		return false
+	}
+	loops := eng.RangeLoops(h)
+	if len(loops) != 1 || eng.Origin(loops[0].Slice) != ssa.Value(h.Params[0]) {
+		return false
+	}
+	l := loops[0]
+	nTrue := 0
+	for _, r := range eng.Returns(h) {
+		k, isC := eng.Origin(eng.RetVals(r)[0]).(*ssa.Const)
+		if !isC || k.Value == nil {
+			return false
+		}
+		if k.Value.String() == "true" {
+			if !l.Body.Dominates(r.Block()) {
+				return false
+			}
+			facts := eng.FactsAt(r)
+			if len(facts) == 0 {
+				return false
+			}
+			pc, _, truth, isCall := facts[0].BoolCall()
+			if !isCall || !truth || eng.Origin(pc.Call.Value) != ssa.Value(h.Params[1]) || len(pc.Call.Args) != 1 || !l.ElemOf(pc.Call.Args[0]) {
+				return false
+			}
+			nTrue++
+		} else if l.Body.Dominates(r.Block()) {
+			return false
+		}
+	}
+	return nTrue == 1
+}
+
+// existsHelperCall: f's only return is the result of an exists-helper applied
+// to a function literal; returns that call and the literal.
+func existsHelperCall(f *ssa.Function) (*ssa.Call, *ssa.Function) {
+	rets := eng.Returns(f)
+	if len(rets) != 1 {
+		return nil, nil
+	}
+	call, _ := eng.TupleCall(eng.RetVals(rets[0])[0])
+	if call == nil || len(call.Call.Args) != 2 || !eng.IsHelper(f, eng.Callee(&call.Call)) || !isExistsHelper(eng.Callee(&call.Call)) {
+		return nil, nil
+	}
+	mc, isMC := eng.Origin(call.Call.Args[1]).(*ssa.MakeClosure)
+	if !isMC {
+		return nil, nil
+	}
+	return call, mc.Fn.(*ssa.Function)
+}
+
+// isParamOrItsCell: v is parameter prm, a load of it, or the address of the
+// cell it was spilled into (pointer-receiver call on a by-value parameter).
+func isParamOrItsCell(v ssa.Value, prm *ssa.Parameter) bool {
+	if eng.Origin(v) == ssa.Value(prm) {
+		return true
+	}
+	if al, ok := v.(*ssa.Alloc); ok {
+		sts := eng.CellStores(al)
+		return len(sts) == 1 && sts[0].Val == ssa.Value(prm)
+	}
+	return false
 }
